@@ -918,6 +918,7 @@ func c09OKey(s *c09OS) string {
 
 func runC09(c *ev.Ctx) {
 	defer sizeSweep(c, "C09")
+	defer c09SlotOverwrites(c)
 	cfg := c09Cfg{maxA: 3, maxB: 2, maxC: 2, maxLen: 5}
 	ocfg := c09Cfg{maxA: 3, maxB: 2, maxC: 2}
 	if c.Thorough() {
@@ -937,5 +938,164 @@ func runC09(c *ev.Ctx) {
 	if !c.Expired() {
 		res = bfs.Run(c, osys)
 		c.Set("scenario/objects", map[string]interface{}{"states": res.States, "depth_completed": res.DepthCompleted, "state_space_closed": res.Exhausted})
+	}
+}
+
+// canonReal renders a real value deeply with object keys sorted.
+func canonReal(v interface{}) string {
+	switch x := v.(type) {
+	case at.Object:
+		ks := x.Keys().StringSlice()
+		sort.Strings(ks)
+		out := "{"
+		for _, k := range ks {
+			out += fmt.Sprintf("%q:%s,", k, canonReal(x.Get(k)))
+		}
+		return out + "}"
+	case at.List:
+		out := "["
+		for i := 0; i < x.Count(); i++ {
+			out += canonReal(x.Get(i)) + ","
+		}
+		return out + "]"
+	case map[string]interface{}:
+		ks := make([]string, 0, len(x))
+		for k := range x {
+			ks = append(ks, k)
+		}
+		sort.Strings(ks)
+		out := "map{"
+		for _, k := range ks {
+			out += fmt.Sprintf("%q:%s,", k, canonReal(x[k]))
+		}
+		return out + "}"
+	case []interface{}:
+		out := "slice["
+		for _, e := range x {
+			out += canonReal(e) + ","
+		}
+		return out + "]"
+	}
+	return fmt.Sprintf("%T(%v)", v, v)
+}
+
+// c09SlotOverwrites: a receiver whose slots hold nested containers M and L, every deriving operation that shares
+// them by reference, then ONE top-level mutation of the receiver (or of the result) that overwrites or removes such
+// a slot - with a scalar, nil, another container, and with NATIVE Go maps/slices. The statement: a later Set /
+// Replace / ... on one container never changes any of the others. The nested containers are shared, so they must
+// not be rewritten in place either: the other side still holds them and must still see their old content.
+func c09SlotOverwrites(c *ev.Ctx) {
+	type party struct {
+		name string
+		v    interface{}
+	}
+	type world struct {
+		recvO      at.Object
+		recvL      at.List
+		m          at.Object
+		l          at.List
+		parties    []party
+		resObjects []at.Object
+		resLists   []at.List
+	}
+	build := func() *world {
+		w := &world{m: at.NewObject("k", 1), l: at.NewList(1, 2)}
+		w.recvO = at.NewObject("o", w.m, "l", w.l, "s", 5)
+		w.recvL = at.NewList(w.m, w.l, 5)
+		other := at.NewObject("x", 0)
+		addO := func(n string, o at.Object) {
+			w.parties = append(w.parties, party{n, o})
+			w.resObjects = append(w.resObjects, o)
+		}
+		addL := func(n string, l at.List) {
+			w.parties = append(w.parties, party{n, l})
+			w.resLists = append(w.resLists, l)
+		}
+		addO("Pluck(o,l)", w.recvO.Pluck("o", "l"))
+		addO("other.Merge(recv)", other.Merge(w.recvO))
+		addO("Map(identity)", w.recvO.Map(func(_ string, v interface{}) interface{} { return v }))
+		addO("MapValues(identity)", w.recvO.MapValues(func(v interface{}) interface{} { return v }))
+		addO("MapAsync(identity)", w.recvO.MapAsync(func(_ string, v interface{}) interface{} { return v }))
+		addL("Values()", w.recvO.Values())
+		w.parties = append(w.parties, party{"Dict()", w.recvO.Dict()})
+		addL("SubList(0,0)", w.recvL.SubList(0, 0))
+		addL("Concat(empty)", w.recvL.Concat(at.NewList()))
+		addL("empty.Concat(recv)", at.NewList().Concat(w.recvL))
+		addL("Filter(always)", w.recvL.Filter(func(interface{}) bool { return true }))
+		addL("Map(identity)", w.recvL.Map(func(_ int, v interface{}) interface{} { return v }))
+		addL("MapAsync(identity)", w.recvL.MapAsync(func(_ int, v interface{}) interface{} { return v }))
+		w.parties = append(w.parties, party{"Slice()", w.recvL.Slice()})
+		w.parties = append(w.parties, party{"the nested object itself", w.m}, party{"the nested list itself", w.l})
+		return w
+	}
+	natM := func() interface{} { return map[string]interface{}{"z": 2} }
+	natS := func() interface{} { return []interface{}{9} }
+	muts := []struct {
+		name string
+		f    func(w *world, side int) // side 0: the receivers, side 1..: results
+	}{
+		{"Set/Replace the slot of the nested object with a native map", func(w *world, side int) { c09Overwrite(w.recvO, w.recvL, w.resObjects, w.resLists, side, 0, natM()) }},
+		{"Set/Replace the slot of the nested list with a native slice", func(w *world, side int) { c09Overwrite(w.recvO, w.recvL, w.resObjects, w.resLists, side, 1, natS()) }},
+		{"Set/Replace the slot of the nested object with a native slice", func(w *world, side int) { c09Overwrite(w.recvO, w.recvL, w.resObjects, w.resLists, side, 0, natS()) }},
+		{"Set/Replace the slot of the nested list with a native map", func(w *world, side int) { c09Overwrite(w.recvO, w.recvL, w.resObjects, w.resLists, side, 1, natM()) }},
+		{"Set/Replace the slot of the nested object with an equal-looking object", func(w *world, side int) {
+			c09Overwrite(w.recvO, w.recvL, w.resObjects, w.resLists, side, 0, at.NewObject("k", 1))
+		}},
+		{"Set/Replace the slot of the nested object with nil", func(w *world, side int) { c09Overwrite(w.recvO, w.recvL, w.resObjects, w.resLists, side, 0, nil) }},
+		{"Set/Replace the slot of the nested list with a scalar", func(w *world, side int) { c09Overwrite(w.recvO, w.recvL, w.resObjects, w.resLists, side, 1, "x") }},
+	}
+	for mi, mu := range muts {
+		for side := 0; side < 2; side++ {
+			w := build()
+			before := make([]string, len(w.parties))
+			for i, p := range w.parties {
+				before[i] = canonReal(p.v)
+			}
+			c.Eval(1)
+			c.Nontrivial(fmt.Sprintf("slot-overwrite/%d/%d", mi, side))
+			if pn, pv := try(func() { mu.f(w, side) }); pn {
+				c.Violate(ev.Violation{Sig: "slot-overwrite/panic", Msg: fmt.Sprintf("%s (side %d) panicked: %v", mu.name, side, pv), Witness: mu.name}, nil)
+				continue
+			}
+			for i, p := range w.parties {
+				if side == 1 && (i < len(w.parties)-2) {
+					continue // the results were mutated themselves on this side: only the nested containers and the receivers are judged
+				}
+				if got := canonReal(p.v); got != before[i] {
+					c.Violate(ev.Violation{Sig: "slot-overwrite/other-changed", Msg: fmt.Sprintf("%s on %s: %s changed from %s to %s", mu.name, []string{"the receiver", "every result"}[side], p.name, before[i], got), Witness: mu.name}, nil)
+					break
+				}
+			}
+			if side == 1 {
+				if got := canonReal(w.recvO); got != canonReal(at.NewObject("o", at.NewObject("k", 1), "l", at.NewList(1, 2), "s", 5)) {
+					c.Violate(ev.Violation{Sig: "slot-overwrite/receiver-changed", Msg: fmt.Sprintf("%s on every result: the receiver object changed to %s", mu.name, got), Witness: mu.name}, nil)
+				}
+				if got := canonReal(w.recvL); got != canonReal(at.NewList(at.NewObject("k", 1), at.NewList(1, 2), 5)) {
+					c.Violate(ev.Violation{Sig: "slot-overwrite/receiver-changed", Msg: fmt.Sprintf("%s on every result: the receiver list changed to %s", mu.name, got), Witness: mu.name}, nil)
+				}
+			}
+		}
+	}
+	c.Set("slot_overwrites", map[string]interface{}{"derivations": 14, "mutations": len(muts), "sides": "receiver / every result"})
+}
+
+// c09Overwrite writes v into the slot holding the nested object (which = 0) or the nested list (which = 1): on the
+// receivers (side 0) or on every derived object/list (side 1).
+func c09Overwrite(recvO at.Object, recvL at.List, resO []at.Object, resL []at.List, side, which int, v interface{}) {
+	key := []string{"o", "l"}[which]
+	if side == 0 {
+		recvO.Set(key, v)
+		recvL.Replace(which, v)
+		return
+	}
+	for _, o := range resO {
+		if o.KeyExists(key) {
+			o.Set(key, v)
+		}
+	}
+	for _, l := range resL {
+		if l.Count() > which {
+			l.Replace(which, v)
+		}
 	}
 }
